@@ -183,7 +183,9 @@ class ClientVisitor:
 
             writer.write_line(f"def {module_name}(self) -> {class_name}:")
             writer.indent()
-            writer.write_line(f'"""Client for \'{tag}\' endpoints."""')
+            # The tag is spec text: keep it inert inside the property docstring
+            safe_tag = tag.replace("\\", "\\\\").replace('"', '\\"').replace("\x00", " ")
+            writer.write_line(f'"""Client for \'{safe_tag}\' endpoints."""')
             writer.write_line(f"if self._{module_name} is None:")
             writer.indent()
             writer.write_line(f"self._{module_name} = {class_name}(self.transport, self._base_url)")
